@@ -18,7 +18,7 @@ from mc import common
 LEVEL = "fault_enumeration"
 
 SRC_KINDS = ["cub", "tet", "pol", "cus", "col", "mesh", "circ"]
-OBS_KINDS = ["arr", "list", "sens1", "sensP", "sens2diff", "sensInColl", "sensMixed"]
+OBS_KINDS = ["arr", "one", "list", "sens1", "sensP", "sens2diff", "sensInColl", "sensMixed"]
 FIELDS = ["B", "H", "J", "M"]
 
 TET_LEFT = np.array([(0, 0, 0), (1, 0, 0), (0, 0, 1), (0, 1, 0)], float)  # left-handed: reordered in place by the core
@@ -105,6 +105,9 @@ def mk_observers(kind, plen):
 
     if kind == "arr":
         a = np.array([(1.0, 2, 3), (-1, 0.5, 2)])
+        return a, [], [a]
+    if kind == "one":   # a single observer row: no tiling / repeating of source properties takes place
+        a = np.array((1.0, 2.0, 3.0))
         return a, [], [a]
     if kind == "list":
         l = [[1.0, 2, 3], [-1, 0.5, 2]]
@@ -503,7 +506,7 @@ def enumerate_cases(tier):
         has_cus = sum(1 for k, _ in srcs if k == "cus")
         for obs in OBS_KINDS:
             for obs_plen in ([1, 2, 3] if obs == "sensP" else [1, 3] if obs in ("sens2diff", "sensInColl", "sensMixed") else [1]):
-                if len(srcs) == 3 and obs not in ("arr", "sensP"):
+                if len(srcs) == 3 and obs not in ("arr", "one", "sensP"):
                     continue
                 for fault in PUBLIC_FAULTS:
                     fault_ats = [None]
@@ -529,7 +532,7 @@ def enumerate_cases(tier):
                                 entries.append("src")
                             if obs in ("sens1", "sensP") and fault in ("none", "ff_raise", "ff_retnone", "output_bad", "agg_argmax"):
                                 entries.append("sens")
-                            if obs in ("arr", "sens1") and fault in ("none", "ff_shape", "output_df") and "col" not in [k for k, _ in srcs]:
+                            if obs in ("arr", "one", "sens1") and fault in ("none", "ff_shape", "output_df") and "col" not in [k for k, _ in srcs]:
                                 entries.append("coll")
                             for entry in entries:
                                 c = {"srcs": srcs, "obs": obs, "obs_plen": obs_plen, "fault": fault,
